@@ -33,7 +33,11 @@ def fail(ident, what, witness, wclass="value"):
 # atoms: positional, named, numeric-named, with blanks / newlines (plain-text names and values)
 ATOMS = ["v", " v ", "\nv", "w x", "k=v", " k = v ", "k=\nv", "n m = v w ", "2=v", " 3 = v ", "02=v", "j=a b", "0=z",
          # blanks other than ASCII ones around names and values (str.strip / \s treat them as blanks)
-         "u=v\u00a0", "\u2009" + "4" + "\u2009=b", "\u3000w\u3000=\u00a0x y\u2009"]
+         "u=v\u00a0", "\u2009" + "4" + "\u2009=b", "\u3000w\u3000=\u00a0x y\u2009",
+         # a nested construct in one argument, line-start markup characters after an inner newline in another
+         "[[x]]", "m=[[x|y]]", "p=a\n b", "q=a\n* b", "a\n: b", "r=[http://e.org t]",
+         # names written in non-ASCII decimal digits
+         "\u0662=b", "\uff13=c"]
 
 
 def name_of(atom):
@@ -72,7 +76,8 @@ def expander_view(args):
 
     def tf(name, ht):
         if name == "T":
-            seen.update(ht)
+            # the hook sees the expander's internal encoding of nested constructs: decode before comparing
+            seen.update({k: (ctx._finalize_expand(v) if isinstance(v, str) else v) for k, v in ht.items()})
         return ""
     ctx.start_page("Tt")
     with quiet_stdout():
@@ -85,14 +90,37 @@ def parser_view(args):
     with quiet_stdout():
         root = ctx.parse("{{T|" + "|".join(args) + "}}")
     node = root.children[0]
-    first = dict(node.template_parameters)
+
+    nested_ok = set()          # keys of arguments whose own source contains a nested construct
+    num = 1
+    for a in args:
+        if "=" in a:
+            kk = a.split("=", 1)[0].strip()
+            kk = int(kk) if kk.isdecimal() and int(kk) > 0 else re.sub(r"\s+", " ", kk)
+        else:
+            kk, num = num, num + 1
+        if "[" in a or "{{" in a:
+            nested_ok.add(kk)
+
+    def plain(v, k=None):
+        # a plain-text argument must be exposed as ONE string; an argument that contains a nested construct is
+        # rendered back to wikitext for the comparison
+        if isinstance(v, str):
+            return v
+        if k is not None and k not in nested_ok:
+            return "<not a plain string: %s>" % ([type(x).__name__ if isinstance(x, str) else str(getattr(x, "kind", x))
+                                                  for x in (v if isinstance(v, list) else [v])],)
+        if isinstance(v, list):
+            return "".join(plain(x) for x in v)
+        return ctx.node_to_wikitext(v)
+    first = {k: plain(v, k) for k, v in node.template_parameters.items()}
     # the usual "try: params[k] except KeyError" idiom on absent names must leave the view unchanged
     for k in ("absent-name", 97):
         try:
             node.template_parameters[k]
         except KeyError:
             pass
-    again = dict(node.template_parameters)
+    again = {k: plain(v, k) for k, v in node.template_parameters.items()}
     if again != first:
         fail("c14:parser-view#stable-under-lookups-of-absent-names", f"{first} became {again}", {"args": args})
     return first
